@@ -83,7 +83,8 @@ def classify(fn, site, inst):
     txt = G.f_show(site.reach)
     if inst:
         for sub, cls in inst.get('other', []):
-            if (sub == 'loop' and G.f_has_loop(site.reach)) or (sub != 'loop' and sub in txt):
+            # an element-wise guard is a loop over the elements or a standard algorithm ranging over them
+            if (sub == 'loop' and (G.f_has_loop(site.reach) or 'adjacent_find(' in txt or 'is_sorted' in txt)) or (sub != 'loop' and sub in txt):
                 return cls
     for q, sub, cls in CLASSIFIED:
         if fn.q == q and sub in txt:
@@ -102,7 +103,8 @@ def run_instance(prog, ctx, inst, wrappers, ra, rb, rc, rd):
         rows = list(inst['rows'])
         table, other = [], []
         for st in g.sites:
-            (table if decidable(prog, st.reach, rows[0], aliases) else other).append(st)
+            # a conjunction may short-circuit on one row before it reaches an atom that cannot be evaluated: try every row
+            (table if all(decidable(prog, st.reach, r_, aliases) for r_ in rows) else other).append(st)
         pred = G.f_or(*[st.reach for st in table])
         try:
             nrows, bad = G.truth_table(prog, pred, rows, inst['spec'], None, aliases)
